@@ -142,3 +142,32 @@ package asp
 //@   opt nopanic=off
 //@   opt panics=allowed
 //@   opt appendalias=on
+
+// ---------------------------------------------------------------------------------------------
+// Frozen containers cannot be written (C17)
+//
+// The mutators of the frozen types never return normally (they panic, which the interpreter reports as an
+// error in the offending BUILD file); a frozen dict is a fresh map holding the frozen versions of the values.
+//@ func (pyFrozenList).IndexAssign
+//@   opt panics=allowed
+//@   ensures never_returns [C17]: false
+//@ func (pyFrozenDict).IndexAssign
+//@   opt panics=allowed
+//@   ensures never_returns [C17]: false
+//@ func (pyFrozenConfig).IndexAssign
+//@   opt panics=allowed
+//@   ensures never_returns [C17]: false
+//@ func (pyFrozenDict).Property
+//@   opt panics=allowed
+//@   opt nopanic=off
+//@   opt inline=off
+//@   ensures setdefault_is_refused [C17]: name != "setdefault"
+//@ func (pyDict).Freeze
+//@   modifies nothing
+//@   opt nopanic=off
+//@   invariant "range d" frozen_so_far: forall k string :: visited(k) ==> in(k, frozen) && \
+//@      frozen[k] == ite(dyntype(d[k], freezable), unbox(d[k], freezable).Freeze(), d[k])
+//@   ensures is_a_frozen_dict [C17]: dyntype(result, pyFrozenDict)
+//@   ensures a_fresh_map [C17]: unbox(result, pyFrozenDict).pyDict != d
+//@   ensures deep [C17]: forall k string :: in(k, d) ==> in(k, unbox(result, pyFrozenDict).pyDict) && \
+//@      unbox(result, pyFrozenDict).pyDict[k] == ite(dyntype(d[k], freezable), unbox(d[k], freezable).Freeze(), d[k])
